@@ -263,6 +263,24 @@ def r6_cap_provenance(ctx):
             R.bad("C06.R6", key, "per-connection subscription cap: %s" % ("; ".join(w for _, w in bad) or "no origin in max_subscriptions_per_connection"), where(c))
         else:
             R.ok("C06.R6", key, "the cap is ServerConfig.max_subscriptions_per_connection", where(c))
+    # the budget is *per connection*: what a connection's RpcService gets is a BoundedSubscriptions created for that
+    # connection (in the upgrade path itself), never a clone of one that lives in a longer-lived, clonable value
+    tr_n = ctx.tracer(follow_callers=False, follow_fields=False, inline_calls=False)
+    m = 0
+    for b in F.real_bodies():
+        if b.crate != SERVER or is_test_body(b) or (b.path.endswith("::clone") and (b.impl_trait or "").endswith("Clone")):
+            continue
+        for bi, blk in enumerate(b.blocks):
+            if blk.get("cleanup") or bi not in b.reachable:
+                continue
+            for st in blk["st"]:
+                if st["s"] == "assign" and st["rv"]["k"] == "agg" and st["rv"].get("variant") == "CallsAndSubscriptions" and "bounded_subscriptions" in st["rv"]["fields"]:
+                    m += 1
+                    op = st["rv"]["ops"][st["rv"]["fields"].index("bounded_subscriptions")]
+                    lv = tr_n.origins(b, op)
+                    fresh = bool(lv) and all(l.kind == "call" and re.search(r"BoundedSubscriptions::new$", l.detail["callee"] or "") and l.where == b.path for l in lv)
+                    R.check(fresh, "C06.R6", "%s:budget-created-per-connection" % fkey(b), "the connection's subscription budget is created for this connection", "%s gives the connection a subscription budget that was not created for it (%s): connections served by clones of one service share one semaphore, so an idle connection is refused because another one is full" % (short(b.path), [flow.leaf_str(l)[:80] for l in lv]), "%s:%d" % (b.file, st["sp"][0]))
+    R.floor("C06.R6.per-connection", m, 2, "RpcServiceCfg::CallsAndSubscriptions constructions in the server")
     nb = F.one(r"^jsonrpsee_core::server::subscription::BoundedSubscriptions::new$")
     trl = ctx.tracer(follow_callers=False, follow_fields=False)
     sem = nb.calls_to(r"Semaphore::new$")
@@ -315,13 +333,38 @@ def r8_no_relock(ctx):
     R.floor("C06.R8", n, 3, "lock acquisitions in the server crates")
 
 
+def r9_connection_ids_are_fresh(ctx):
+    """the subscriber table is keyed by (connection id, subscription id): two live connections must never share a
+    connection id, however the server is assembled. The id a service is born with (ServiceData.conn_id) therefore comes
+    from a counter step - the accept loop's increment (ProcessConnection.conn_id: start value and `wrapping_add`) or the
+    shared atomic's fetch_add in TowerServiceBuilder::build - never from a plain copy that every clone of a builder
+    repeats."""
+    F, R = ctx.F, ctx.R
+    tr = ctx.tracer(follow_callers=False, follow_fields=False, inline_calls=False)
+    tr.field_writes("-", "-")
+    n = 0
+    for (owner, fname), lst in sorted(tr._field_writes.items()):
+        if fname != "conn_id" or owner not in ("jsonrpsee_server::server::ServiceData", "jsonrpsee_server::server::ProcessConnection"):
+            continue
+        for b, op in lst:
+            if is_test_body(b) or "rvwrap" in op or (b.path.endswith("::clone") and (b.impl_trait or "").endswith("Clone")):
+                continue
+            n += 1
+            R.fn(b)
+            lv = tr.origins(b, op)
+            step = [l for l in lv if (l.kind == "call" and re.search(r"atomic::Atomic.*::fetch_add$|::wrapping_add$|::checked_add$", l.detail["callee"] or "")) or l.kind == "arith"]
+            passed = [l for l in lv if l.kind == "field" and l.detail["fields"][-1][1] == "conn_id" and l.detail["fields"][-1][0] == "jsonrpsee_server::server::ProcessConnection"]
+            R.check(bool(step) or (bool(passed) and owner.endswith("ServiceData")), "C06.R9", "%s:%s.conn_id-is-fresh" % (fkey(b), owner.split("::")[-1]), "%s gives the connection a fresh id (%s)" % (short(b.path), "counter step" if step else "the accept loop's id"), "%s gives the connection an id that is a plain copy (%s): every service built from a clone of the same builder gets the same ConnectionId, so one connection can unsubscribe (and kill) another connection's subscription" % (short(b.path), [flow.leaf_str(l)[:70] for l in lv]), "%s:%d" % (b.file, b.lo))
+    R.floor("C06.R9", n, 3, "places where a connection gets its id")
+
+
 def rcfg_config_verbatim(ctx):
     """the configured `max_subscriptions_per_connection` reaches the ServerConfig unchanged (setter stores its argument, build()/Clone copy it)"""
     from .common import config_field_integrity
     config_field_integrity(ctx, "C06.CFG", "max_subscriptions_per_connection")
 
 
-RULES = [r1_permit_before_handler, r2_permit_flow, r3_unsubscribe_answer, r4_release_on_last_drop, r5_unsubscribe_needs_no_permit, r6_cap_provenance, r7_table_writers, r8_no_relock, rcfg_config_verbatim]
+RULES = [r1_permit_before_handler, r2_permit_flow, r3_unsubscribe_answer, r4_release_on_last_drop, r5_unsubscribe_needs_no_permit, r6_cap_provenance, r7_table_writers, r8_no_relock, r9_connection_ids_are_fresh, rcfg_config_verbatim]
 
 LEVEL_TEXT = (
     "Structural necessary conditions of subscription bookkeeping decided from the type-checked program: acquire dominates "
